@@ -235,7 +235,16 @@ func ceMain(args []string) {
 			}
 			st.hit("prefilled-format-entry")
 		}
-		got, err := ff.Process(ctx, e)
+		// one call in six comes with a context that is already done (a request that was given up): whatever
+		// the node does then, it does not forward an event of a listed type unsigned
+		pctx := ctx
+		if p.chance(1, 6) {
+			c2, cancel := context.WithCancel(ctx)
+			cancel()
+			pctx = c2
+			st.hit("done-context")
+		}
+		got, err := ff.Process(pctx, e)
 		fname := string(cloudevents.FormatJSON)
 		fcode := 2
 		if fmK == "t" {
